@@ -138,7 +138,8 @@ def r3(R, repo):
     for e in elems:
       ok = ok and c.must_pass(lp, e, seps, avoid_edges=cut)
     guarded = [n for n in body if n.kind == 'stmt' and c.edge_guarded(n, flag[0], 'T')]
-    ok = ok and set(guarded) == set(seps)  # the flag changes nothing but the separator
+    hashing = [n for n in guarded if n not in seps and any(isinstance(x, ast.Call) and astu.call_tail(x) == 'update' for x in ast.walk(n.stmt))]
+    ok = ok and not hashing  # the flag changes nothing about what is hashed but the separator
   R.judge(len(flag) == 1 and bool(elems), ok, key_of(f, 'separator before each element when flax_fix_rng_separator'), f,
           'with the separator fix enabled a separator byte must be hashed before every element (so ("ab","c") and ("a","bc") differ)')
   # every element contributes: str and int branches update, anything else raises
